@@ -29,8 +29,11 @@ class Task:
 
 
 class Case:
-    def __init__(self, tasks, root=0, again=False, jobs=1, stop=False, launch_fail=(), rcs=None, picks=()):
+    def __init__(self, tasks, root=0, again=False, jobs=1, stop=False, launch_fail=(), rcs=None, picks=(), batches=()):
         self.tasks = tasks
+        # batches[k]: how many FURTHER running processes exit together with the one picked at the k-th blocking wait
+        # (one SIGCHLD stands for several exits: the handler reaps them all, wait() hands them out one by one)
+        self.batches = list(batches)
         self.root = root
         self.again = again
         self.jobs = jobs
@@ -46,18 +49,18 @@ class Case:
         return {
             "tasks": [[t.status, t.deps, t.kind, t.par, t.sr, t.pkg] for t in self.tasks],
             "root": self.root, "again": self.again, "jobs": self.jobs, "stop": self.stop,
-            "launch_fail": self.launch_fail, "rcs": self.rcs, "picks": self.picks,
+            "launch_fail": self.launch_fail, "rcs": self.rcs, "picks": self.picks, "batches": self.batches,
         }
 
     @staticmethod
     def from_json(j):
         tasks = [Task(s, d, k, p, sr, pkg) for s, d, k, p, sr, pkg in j["tasks"]]
-        return Case(tasks, j["root"], j["again"], j["jobs"], j["stop"], j["launch_fail"], j["rcs"], j["picks"])
+        return Case(tasks, j["root"], j["again"], j["jobs"], j["stop"], j["launch_fail"], j["rcs"], j["picks"], j.get("batches", ()))
 
     def graph_text(self):
         return ";".join("t%d->[%s]" % (i, ",".join("t%d" % d for d in t.deps)) for i, t in enumerate(self.tasks) if t.status == 2 and t.deps)
 
-    def coq(self):
+    def coq(self, picks=None):
         tds = []
         for t in self.tasks:
             tds.append("{| td_status := %d%%nat; td_deps := %s; td_kind := %s; td_par := %s; td_sr := %s |}" % (
@@ -65,7 +68,7 @@ class Case:
         cfg = ("{| c_root := %d%%nat; c_again := %s; c_jobs := %d%%nat; c_stop := %s; c_launch_fail := %s; c_rcs := %s; c_picks := %s |}" % (
             self.root, cbool(self.again), self.jobs, cbool(self.stop),
             clist(["%d%%nat" % x for x in self.launch_fail]), clist(["%d%%N" % x for x in self.rcs]),
-            clist(["%d%%nat" % x for x in self.picks])))
+            clist(["%d%%nat" % x for x in (self.picks if picks is None else picks)])))
         return "(%s, %s)" % (clist(tds), cfg)
 
 
@@ -77,12 +80,14 @@ def spelled(i, pos, d, tasks):
     """a dependency can be written in several ways that denote the same task: //pkg:t, //pkg/:t and,
     inside the same COND file, :t -- vary them deterministically"""
     t, td = tasks[i], tasks[d]
-    choice = (i * 7 + d * 3 + pos) % 3
-    if choice == 1 and t.pkg == td.pkg and td.status != 0:
-        return ":t%d" % d
-    if choice == 2 and td.pkg:
-        return "//%s/:t%d" % (td.pkg, d)
-    return ident(d, td)
+    forms = [ident(d, td)]
+    if t.pkg == td.pkg and td.status != 0:
+        forms.append(":t%d" % d)
+    if td.pkg:
+        forms.append("//%s/:t%d" % (td.pkg, d))
+    # a task listed twice is spelled differently each time whenever that is possible
+    earlier = t.deps[:pos].count(d)
+    return forms[(i * 7 + d * 3 + earlier) % len(forms)] if earlier == 0 else forms[((i * 7 + d * 3) % len(forms) + earlier) % len(forms)]
 
 
 # ----------------------------------------------------------------------------- project on disk
@@ -261,6 +266,27 @@ def run_impl(case, keep_root=False, inject=None):
             vi.insert_output_version(m["TaskIdentifier"].from_str(ident(i, t)), m["Version"](1000 + i, None, False))
         vi.commit_changes()
         del vi
+    # launch failures come in two kinds: Popen() raising (all tasks) and, for run_command tasks with an odd number, an
+    # output directory that cannot be created because a regular file has its name (the real mkdir fails)
+    blocked = set()
+    for t_ in case.launch_fail:
+        if t_ < len(case.tasks) and case.tasks[t_].status == 2 and case.tasks[t_].kind == "command" and t_ % 2 == 1:
+            d_ = os.path.join(root, "cond-out", case.tasks[t_].pkg)
+            os.makedirs(d_, exist_ok=True)
+            with open(os.path.join(d_, "t%d.task" % t_), "w", encoding="utf-8") as f_:
+                f_.write("in the way\n")
+            blocked.add(t_)
+    # left-overs of earlier failed runs: unrecorded output directories of some experiments carrying the version
+    # numbers that are about to be generated (a new version must not reuse or be confused with them)
+    import time as _time
+    now_ = int(_time.time())
+    for i_, t_ in enumerate(case.tasks):
+        if t_.status == 2 and t_.kind == "experiment" and i_ % 3 == 2:
+            for j_ in range(0, len(case.tasks) + 3):
+                d_ = os.path.join(root, "cond-out", t_.pkg, "t%d.task.%d" % (i_, now_ + j_))
+                os.makedirs(d_, exist_ok=True)
+                with open(os.path.join(d_, "stale.txt"), "w", encoding="utf-8") as f_:
+                    f_.write("left over\n")
     import signal as _signal
     trace = []          # raw records
     started = set()
@@ -271,6 +297,7 @@ def run_impl(case, keep_root=False, inject=None):
     write_ends = {}
     kills = []
     vanished = set()   # pids that have "exited and been reaped" although they are still registered
+    exited = set()     # reaped by the (fake) handler, not yet handed out by wait()
     rte, co, noop, operation, sigchld, errors = m["rte"], m["co"], m["noop"], m["operation"], m["sigchld"], m["errors"]
 
     class FakeProc:
@@ -319,21 +346,43 @@ def run_impl(case, keep_root=False, inject=None):
     def fake_getpgid(pid):
         if pid in vanished:
             raise ProcessLookupError(3, "No such process")
+        if pid in exited:
+            # exited and reaped by the handler, not yet handed out by wait(): terminating it is attempted (recorded) and
+            # fails with ESRCH, which the executor has to tolerate
+            kills.append(pid_task.get(pid, -1))
+            raise ProcessLookupError(3, "No such process")
         return pid
 
     def fake_killpg(pg, sig):  # pylint: disable=unused-argument
         kills.append(pid_task.get(pg, -1))
         close_pipes(pg)
 
-    def fake_wait(self):  # pylint: disable=unused-argument
-        if not inflight:
-            raise Deadlock("SigchldHelper.wait() with no process in flight")
-        k = (case.picks[waits[0]] if waits[0] < len(case.picks) else 0) % len(inflight)
-        waits[0] += 1
-        pid = inflight.pop(k)
-        close_pipes(pid)
-        t = pid_task[pid]
-        rc = case.rcs[t] if t < len(case.rcs) else 0
+    eff_picks = []     # index (in the list of not yet returned processes) of the process each wait() returned
+    nbatch = [0]
+
+    def fake_wait(self):
+        rcs_list = self._returncodes  # pylint: disable=protected-access
+        if len(rcs_list) == 0:
+            live = [p for p in inflight if p not in exited]
+            if not live:
+                raise Deadlock("SigchldHelper.wait() with no process in flight")
+            k = (case.picks[waits[0]] if waits[0] < len(case.picks) else 0) % len(live)
+            waits[0] += 1
+            nb = case.batches[nbatch[0]] if nbatch[0] < len(case.batches) else 0
+            nbatch[0] += 1
+            primary = live[k]
+            extras = [p for p in live if p != primary][:nb]
+            for p in extras + [primary]:      # the handler appends in reaping order; wait() pops the last one
+                exited.add(p)
+                close_pipes(p)
+                tk = pid_task[p]
+                rcs_list.append((p, case.rcs[tk] if tk < len(case.rcs) else 0))
+        pid, rc = self._extract_any()  # pylint: disable=protected-access
+        if pid in inflight:
+            eff_picks.append(inflight.index(pid))
+            inflight.remove(pid)
+        exited.discard(pid)
+        t = pid_task.get(pid, -1)
         trace.append(("finish", t, rc))
         return pid, rc
 
@@ -468,6 +517,7 @@ def run_impl(case, keep_root=False, inject=None):
         obs.crash = "Timeout: the implementation blocked for more than %d s (it was waiting for a task process that nothing was going to end)" % IMPL_TIMEOUT
     obs.stdout = out.getvalue()
     obs.sr_calls, obs.nv_calls = sr_calls, nv_calls
+    obs.eff_picks = list(eff_picks)
     obs.kills = kills
     obs.root = root
     obs.index_rows = None
@@ -602,13 +652,14 @@ def model_hashes(cases, fuel=4000, shard=250):
     raise NotImplementedError
 
 
-def compare_with_model(cases, wants, fuel=4000, shard=200):
+def compare_with_model(cases, wants, fuel=4000, shard=200, picks=None):
     """cases: list of Case; wants: list of packed numbers computed from the implementation.
     Returns (list of indices that disagree, list of (shard, raw) failures)."""
     exprs, wl, offs = [], [], []
     for a in range(0, len(cases), shard):
         chunk = cases[a:a + shard]
-        exprs.append("map (fun tc => case_hash %d%%nat (fst tc) (snd tc)) %s" % (fuel, "[" + ";\n ".join(c.coq() for c in chunk) + "]"))
+        pk = picks[a:a + shard] if picks is not None else [None] * len(chunk)
+        exprs.append("map (fun tc => case_hash %d%%nat (fst tc) (snd tc)) %s" % (fuel, "[" + ";\n ".join(c.coq(q) for c, q in zip(chunk, pk)) + "]"))
         wl.append(wants[a:a + shard])
         offs.append(a)
     res = run_packed_cases(IMPORTS, "", exprs, wl)
@@ -621,12 +672,12 @@ def compare_with_model(cases, wants, fuel=4000, shard=200):
     return bad, fails
 
 
-def model_dump(case, fuel=4000):
+def model_dump(case, fuel=4000, picks=None):
     """raw flattened outcome of the model for one case (for replays / diagnostics)"""
     from common import coq_eval, parse_eval
 
     text = ("From Coq Require Import List NArith Bool.\n" + IMPORTS + "\nImport ListNotations.\n"
-            "Definition tc := %s.\nEval vm_compute in (ser_outcome (fst tc) (cond_run %d%%nat (fst tc) (snd tc))).\n" % (case.coq(), fuel))
+            "Definition tc := %s.\nEval vm_compute in (ser_outcome (fst tc) (cond_run %d%%nat (fst tc) (snd tc))).\n" % (case.coq(picks), fuel))
     (rc, out), = coq_eval([("dump", text)])
     vals = parse_eval(out)
     if rc != 0 or not vals:
